@@ -77,4 +77,10 @@ CHECKS = {
         "case = one single-node script in which the node proposes as primary (at Start, after Reset at the timer, in views >0), with previous-block timestamps before/around/after the clock, increments {1,7,999983,1e6,1e9} ns, pools of 0..20 transactions with a drawn per-block limit, clock stepping backwards; "
         "non-trivial = a proposal was made with an unaligned clock and a non-empty pool, or with the clock at or behind the previous block's timestamp; distinct = hash of the choice stream",
         1500, 40000, assumptions=["the zone prev < trunc(clock) < prev+inc is only bounded (two readings of the statement)"]),
+    "C19": rapid("TestC19",
+        "five generated families over the reference implementations: (1) payloads of every kind built through the exported constructors (recovery messages filled through AddPayload): equal fields => equal hash, one mutated field => different hash, decode(encode(p)) observationally equal incl. rebuilt proposal/responses/change views/(pre)commits; (2) blocks / anti-MEV blocks: hash vs content, signature does not change the hash and verifies only for that key and content; (3) ECDSA sign/verify incl. altered data/signature/other key; (4) Merkle root vs leaf/order/add/remove changes; (5) decoder fed random bytes and corrupted/truncated valid encodings: error or value, never panic, accepted values survive their own round trip; thorough adds native fuzzing of (5); "
+        "non-trivial = recovery message with >=2 embedded payloads, proposal/block with >=2 transactions, >=3 Merkle leaves, non-empty signed data, or a corrupted valid encoding; distinct = hash of the generated value",
+        1500, 30000, assumptions=["sound domain: ChangeView bodies with newView = view+1, 64-byte signatures, 4-byte pre-commit data, duplicate-free hash lists, blocks whose transactions were set", "pre-commit and anti-MEV commit payloads are rejected by the reference decoder (allowed)"]),
 }
+CHECKS["C19"]["fuzz"] = [("FuzzC19Decode", 150)]
+CHECKS["C11"]["fuzz"] = [("FuzzC11", 240)]
